@@ -75,6 +75,23 @@ Definition run_serve (tr pol m unp : string) : string :=
   let t := if String.eqb tr "udp" then Udp else Tcp in
   show_events (serve (policy_of pol) (unpack_of unp) t (unhex m)).
 
+(* ---- stream: several frames on one connection ---- *)
+(* limit as Server.MaxTCPQueries: 0 = the default of 128, -1 = no limit (here:
+   more frames than the stream can hold) *)
+Definition limit_of (s : string) (stream : bytes) : nat :=
+  if String.eqb s "0" then 128%nat
+  else if String.eqb s "-1" then S (length stream)
+  else N.to_nat (undec s).
+Fixpoint serve_frames (pol : string) (fs : list bytes) (us : list string) : list (event string) :=
+  match fs with
+  | [] => []
+  | f :: r => serve (policy_of pol) (unpack_of (hd "" us)) Tcp f ++ serve_frames pol r (tl us)
+  end.
+(* args: policy, limit, the octet stream, then the decoder outcome of each message *)
+Definition run_stream (args : list string) : string :=
+  let s := unhex (arg args 2) in
+  show_events (serve_frames (arg args 0) (read_frames (limit_of (arg args 1) s) s) (skipn 3 args)).
+
 (* ---- mux ---- *)
 (* ops: comma separated, h:<pattern hex>:<id> or r:<pattern hex> *)
 Fixpoint apply_ops (ops : list string) (z : mux N) : res (mux N) :=
@@ -137,6 +154,7 @@ Definition run (fn : string) (args : list string) : string :=
   else if String.eqb fn "sethdr" then show_mhdr (set_hdr (mkHeader (undec (arg args 0)) (undec (arg args 1)) 0 0 0 0))
   else if String.eqb fn "packbits" then dec (pack_bits (parse_mhdr (arg args 0)))
   else if String.eqb fn "serve" then run_serve (arg args 0) (arg args 1) (arg args 2) (arg args 3)
+  else if String.eqb fn "stream" then run_stream args
   else if String.eqb fn "mux" then run_mux (arg args 0) (arg args 1) (arg args 2)
   else if String.eqb fn "muxserve" then run_muxserve (arg args 0) (arg args 1)
   else if String.eqb fn "skel" then run_skel (arg args 0) (arg args 1) (arg args 2) (arg args 3) (arg args 4)
